@@ -402,23 +402,72 @@ func (g *Gen) evalSpec(e *E, cx *Ctx) Val {
 				ncx.oldV[qn] = v
 			}
 		}
-		// pass 1: discover which slice offsets the bound variables are used with
-		ncx.disc = map[string]map[string]int{}
-		for _, tv := range qterms {
-			ncx.bound = append(ncx.bound, tv.S)
-		}
-		bind(nil)
-		g.evalSpec(e.Args[0], &ncx)
+		// discovery passes: find which slice offset each bound variable is used with and shift the variable to
+		// absolute array positions. Offsets may depend on variables decided in an earlier round (a[b][j]: the offset
+		// of the inner slice depends on b), so the passes are repeated until nothing changes.
 		shift := map[string]Term{}
-		for _, tv := range qterms {
-			best, bestN := "", 0
-			for off, n := range ncx.disc[tv.S] {
-				if off != "0" && (n > bestN || (n == bestN && off < best)) {
-					best, bestN = off, n
+		decided := map[string]bool{}
+		for round := 0; round <= len(qterms); round++ {
+			ncx.disc = map[string]map[string]int{}
+			ncx.bound = append([]string(nil), cx.bound...)
+			for _, tv := range qterms {
+				ncx.bound = append(ncx.bound, tv.S)
+			}
+			bind(shift)
+			g.evalSpec(e.Args[0], &ncx)
+			changed := false
+			prev := map[string]bool{}
+			for k, v := range decided {
+				prev[k] = v
+			}
+			for _, tv := range qterms {
+				if decided[tv.S] || tv.Sort != SInt {
+					continue
+				}
+				best, bestN := "", 0
+				for off, n := range ncx.disc[tv.S] {
+					if off != "0" && (n > bestN || (n == bestN && off < best)) {
+						best, bestN = off, n
+					}
+				}
+				if bestN == 0 {
+					continue
+				}
+				ok := !strings.Contains(best, tv.S)
+				for _, other := range qterms {
+					if other.S != tv.S && strings.Contains(best, other.S) && !prev[other.S] {
+						ok = false
+					}
+				}
+				if ok {
+					shift[tv.S] = Term{best, SInt}
+					decided[tv.S] = true
+					changed = true
 				}
 			}
-			if bestN > 0 && tv.Sort == SInt {
-				shift[tv.S] = Term{best, SInt}
+			if !changed {
+				// variables without a usable offset in this round are final as they are; one more round lets
+				// variables that depend on them settle
+				progress := false
+				for _, tv := range qterms {
+					if !decided[tv.S] {
+						dep := false
+						for off := range ncx.disc[tv.S] {
+							for _, other := range qterms {
+								if other.S != tv.S && strings.Contains(off, other.S) && !decided[other.S] {
+									dep = true
+								}
+							}
+						}
+						if !dep {
+							decided[tv.S] = true
+							progress = true
+						}
+					}
+				}
+				if !progress {
+					break
+				}
 			}
 		}
 		ncx.disc = cx.disc
